@@ -5,7 +5,9 @@ and what the real `server.handle(...)` did (observed by wrapping it on the insta
 
 A case is JSON-able:
   {"module","class","method","call_id","body"(hex),"minor","protocol"(override|None),
-   "script":{"mode":"stub|ok|raise|wrong|missing|partial","exc":name,"code":int|str|None,"yields":n,"vseed":int,"k":int},
+   "script":{"mode":"stub|ok|raise|wrong|missing|partial|wrongpos","exc":name,"code":int|str|None,"yields":n,"vseed":int,"k":int,
+             "path":[...],"w":value token,"slot":declared type,"where":"top.<T>|in0|in1"},
+   (wrongpos = the well-typed result of `vseed` with ONE wrong value `w` at `path`, see rmc_results.py)
    (partial = a well-typed result in which the k-th response value / a late element or field of the value is of the
     wrong type, so that encoding fails after part of the response has already been written)
    "kind": tag, "extract": "ok"|"other"|"observed"}
@@ -14,6 +16,7 @@ import collections, importlib, logging, random, struct, asyncio
 import anyio
 from nintendo.nex import rmc, common, streams, settings as nexsettings
 import rmc_values as V
+import rmc_results as RES
 
 logging.getLogger("nintendo.nex").setLevel(logging.CRITICAL + 1)
 for _n in ("rmc", "common"):
@@ -92,9 +95,7 @@ def classify(e):
     return "other"
 
 
-class WrongType:
-    """an object of a class no generated handler expects"""
-    def __repr__(self): return "<WrongType>"   # deterministic: `stationurl()` encodes str(value)
+WrongType = RES.WrongType   # an object of a class no generated handler expects
 
 
 def corrupt_late(b, value):
@@ -162,6 +163,7 @@ class Cell:
         self.script = None
         self.called = None
         self.observed = None
+        self.observed_type = None
         self.value_error = None
 
 
@@ -190,7 +192,7 @@ def instrument(srvinfo, cell):
                 obj = rmc.RMCResponse()
                 for f in m["fields"][:-1]: setattr(obj, f, 0)
                 return obj
-            if mode in ("ok", "partial"):
+            if mode in ("ok", "partial", "wrongpos"):
                 b.rng = random.Random(sc["vseed"] + 1)
                 try:
                     rv = b.response_value(srvinfo["class"], m["user"], m["resp"], m["fields"])
@@ -202,6 +204,8 @@ def instrument(srvinfo, cell):
                         setattr(rv, m["fields"][sc["k"] % len(m["fields"])], WrongType())
                     else:
                         rv, _ = corrupt_late(b, rv)
+                if mode == "wrongpos":
+                    rv = RES.corrupt(m, rv, sc["path"], sc["w"])
                 return rv
             raise ValueError(mode)
         return user
@@ -263,7 +267,7 @@ async def run_session(srvinfos, cases, minor=0, max_yields=200, prebuilt=None):
         for case in cases:
             if state["loop"] != "alive":
                 results.append({"skipped": True}); continue
-            cell.script = case["script"]; cell.called = None; cell.observed = None; cell.value_error = None
+            cell.script = case["script"]; cell.called = None; cell.observed = None; cell.value_error = None; cell.observed_type = None
             peer.sent = []
             peer.send_yields = case["script"].get("send_yields", 0)
             peer.push(bytes.fromhex(case["datagram"]))
@@ -271,7 +275,7 @@ async def run_session(srvinfos, cases, minor=0, max_yields=200, prebuilt=None):
             while not peer.idle and state["loop"] == "alive" and n < max_yields:
                 await anyio.sleep(0); n += 1
             results.append({"sent": [d.hex() for d in peer.sent], "loop": state["loop"], "observed": cell.observed,
-                            "called": cell.called is not None, "hang": n >= max_yields, "value_error": cell.value_error,
+                            "called": cell.called is not None, "hang": n >= max_yields, "observed_type": cell.observed_type, "value_error": cell.value_error,
                             "closed": client.closed})
         state["teardown"] = True
         tg.cancel_scope.cancel()
